@@ -12,7 +12,9 @@
 //!         remove_row / remove_column_by_index on sheet `edited`; get_formula of own!(c,r)
 //!
 //! kind "wb" (C08)
-//!   case  = {"case": id, "kind":"wb", "sheets":[names], "cells":[{"s","r","c","toks","f"}],
+//!   case  = {"case": id, "kind":"wb", "sheets":[names], "cells":[{"s","r","c","toks","f"
+//!             [, "si": n, "members":[{"r","c"}..]: the cell is the master of a shared-formula group]}],
+//!            ["load": true: the workbook is saved to memory and read back before the history (needed for groups),]
 //!            "names":[{"on": 0 (workbook) | sheet index, "name", "tok", "addr"}],
 //!            "charts":[{"on": sheet index, "toks":[ref tokens], "addrs":[text], "kinds":[chart kind per series:
 //!                       line|pie|bar|area, listed in this order; optional, default all line]}],
@@ -25,7 +27,7 @@
 use serde_json::{json, Value};
 use std::panic::{catch_unwind, AssertUnwindSafe};
 use umya_spreadsheet::structs::drawing::spreadsheet::MarkerType;
-use umya_spreadsheet::structs::{Cell, Chart, ChartType, DefinedName, Spreadsheet};
+use umya_spreadsheet::structs::{Cell, CellFormula, CellFormulaValues, Chart, ChartType, DefinedName, Spreadsheet};
 use uverif::*;
 
 fn main() {
@@ -103,7 +105,26 @@ fn build(case: &Value) -> Spreadsheet {
     }
     for c in case["cells"].as_array().unwrap() {
         let ws = book.get_sheet_mut(&(u(c, "s") as usize - 1)).unwrap();
-        ws.get_cell_mut((u(c, "c"), u(c, "r"))).set_formula(s(c, "f"));
+        match c.get("members").and_then(|m| m.as_array()) {
+            Some(members) if !members.is_empty() => {
+                // master of a shared-formula group (index "si") and its members (no text of their own)
+                let si = u(c, "si");
+                let mut f = CellFormula::default();
+                f.set_formula_type(CellFormulaValues::Shared);
+                f.set_shared_index(si);
+                f.set_text(s(c, "f"));
+                ws.get_cell_mut((u(c, "c"), u(c, "r"))).get_cell_value_mut().set_formula_obj(f);
+                for m in members {
+                    let mut f = CellFormula::default();
+                    f.set_formula_type(CellFormulaValues::Shared);
+                    f.set_shared_index(si);
+                    ws.get_cell_mut((u(m, "c"), u(m, "r"))).get_cell_value_mut().set_formula_obj(f);
+                }
+            }
+            _ => {
+                ws.get_cell_mut((u(c, "c"), u(c, "r"))).set_formula(s(c, "f"));
+            }
+        }
     }
     for d in case["names"].as_array().unwrap() {
         let on = u(d, "on") as usize;
@@ -166,6 +187,13 @@ fn build(case: &Value) -> Spreadsheet {
         if let Some(c) = chart {
             ws.add_chart(c);
         }
+    }
+    if case.get("load").and_then(|x| x.as_bool()).unwrap_or(false) {
+        // start from a file: the workbook is saved to memory and read back (shared-formula groups only exist in
+        // loaded workbooks: a member then carries the formula the reader derives for it from the master)
+        let mut buf: Vec<u8> = vec![];
+        umya_spreadsheet::writer::xlsx::write_writer(&book, &mut buf).expect("write_writer");
+        book = umya_spreadsheet::reader::xlsx::read_reader(std::io::Cursor::new(buf), true).expect("read_reader");
     }
     book
 }
